@@ -285,6 +285,14 @@ FAMILY_POOLS = {
     "boolean": [("true", "boolean"), ("false", "boolean"), ("1", "boolean"), ("0", "boolean"), ("TRUE", "boolean"), ("abc", "boolean")],
     "string": [("a", None), ("a", "string"), ("b", None), ("A", "string"), ("", None), ("", "string"), ("a b", "token"), (" a  b ", "token"),
                ("a\tb", "normalizedString"), ("a b", "normalizedString"), ("ab", None), ("http://x", "anyURI"), ("http://y", "anyURI")],
+    "time": [("21:32:52", "time"), ("21:32:52Z", "time"), ("23:32:52+02:00", "time"), ("21:32:52+02:00", "time"), ("19:32:52Z", "time"),
+             ("21:32:52.5", "time"), ("00:00:00", "time"), ("24:00:00", "time"), ("01:00:00-05:00", "time"), ("06:00:00Z", "time"), ("abc", "time")],
+    "duration": [("P1D", "duration"), ("PT24H", "duration"), ("PT1440M", "duration"), ("P30D", "duration"), ("-P1D", "duration"), ("PT0S", "duration"),
+                 ("P1Y", "duration"), ("P12M", "duration"), ("P13M", "duration"), ("P1M", "duration"), ("P1Y2M3DT4H5M6S", "duration"), ("abc", "duration"),
+                 ("P1D", "dayTimeDuration"), ("PT24H", "dayTimeDuration"), ("PT25H", "dayTimeDuration"), ("PT1S", "dayTimeDuration"),
+                 ("P1Y", "yearMonthDuration"), ("P12M", "yearMonthDuration"), ("P13M", "yearMonthDuration"), ("-P1Y", "yearMonthDuration")],
+    "binary": [("0FB7", "hexBinary"), ("0fb7", "hexBinary"), ("0FB8", "hexBinary"), ("", "hexBinary"), ("0F", "hexBinary"), ("FF", "hexBinary"), ("xyz", "hexBinary"),
+               ("AAEC", "base64Binary"), ("AAE=", "base64Binary"), ("AAED", "base64Binary"), ("", "base64Binary"), ("/w==", "base64Binary"), ("!!!", "base64Binary")],
     "illtyped": [("abc", "integer"), ("abd", "integer"), ("", "integer"), ("5x", "integer"), ("x", "http://e/dt"), ("y", "http://e/dt"),
                  ("xy", "http://e/dt"), ("abc", "dateTime"), ("abd", "dateTime")],
 }
@@ -300,6 +308,66 @@ def _gen_family(rng):
         dt = None if name is None else (name if ":" in name else XSD + name)
         lang = rng.choice(LANGS[:5]) if fam == "string" and name is None and rng.random() < 0.4 else None
         out.append({"k": "lit", "lex": lex, "dt": dt, "lang": lang, "nn": rng.random() < 0.5})
+    return out
+
+
+HIST_NS = ["http://e/", "http://other/e/", "http://e/ns/", "http://e/dt#", "urn:x:"]
+HIST_PFX = ["ex", "n", "dt", "p2", "xsd", "schema"]
+
+
+def _gen_hist(rng):
+    """[op…]; op = ["rt"] | ["bind", prefix, namespace, override, replace] | ["second", prefix, namespace] (a second
+    NamespaceManager on the same graph binds, with replace=True; later round trips go through BOTH managers)"""
+    ops = [["rt"]]
+    for _ in range(rng.choice([1, 2, 2, 3, 4])):
+        if rng.random() < 0.2:
+            ops.append(["second", rng.choice(HIST_PFX[:3]), rng.choice(HIST_NS)])
+        else:
+            ops.append(["bind", rng.choice(HIST_PFX), rng.choice(HIST_NS), rng.random() < 0.8, rng.random() < 0.7])
+        ops.append(["rt"])
+    return ops
+
+
+def _hist_terms(ts):
+    """IRIs and literals with a datatype in every namespace of the histories, plus the case's own IRIs / datatyped literals"""
+    out = []
+    for ns in HIST_NS:
+        out += [URIRef(ns + "thing"), Literal("5", datatype=URIRef(ns + "metres"))]
+    out += [t for t in ts if isinstance(t, URIRef) or (isinstance(t, Literal) and t.datatype is not None)][:3]
+    # (a literal whose text `_literal_n3` respells is finding K5, observed by the other text oracles: not part of this stream)
+    return [t for t in out if _text_in_scope(t) and (not isinstance(t, URIRef) or not any(c in str(t) for c in INVALID))
+            and not (isinstance(t, Literal) and _respelt(t))]
+
+
+def _hist_run(case, ts):
+    """replays the history with a fresh graph; one record per (round trip, manager, term):
+    (step, which manager, term, text written or exception, bindings at that moment, what from_n3 read or exception)"""
+    from rdflib.namespace import NamespaceManager
+    g = Graph()
+    managers = [("first", g.namespace_manager)]
+    g.namespace_manager.bind("ex", HIST_NS[0])
+    g.namespace_manager.bind("n", HIST_NS[2])
+    terms = _hist_terms(ts)
+    out = []
+    old = rdflib.NORMALIZE_LITERALS
+    rdflib.NORMALIZE_LITERALS = False
+    try:
+        for n, op in enumerate(case.get("hist") or []):
+            if op[0] == "bind":
+                _try(lambda: managers[0][1].bind(op[1], op[2], override=op[3], replace=op[4]))
+            elif op[0] == "second":
+                if len(managers) == 1:
+                    managers.append(("second", NamespaceManager(g)))
+                _try(lambda: managers[1][1].bind(op[1], op[2], replace=True))
+            else:
+                for name, m in managers:
+                    tbl = [(p, str(ns)) for p, ns in m.namespaces()]
+                    for t in terms:
+                        text = _try(lambda: t.n3(m))
+                        back = text if isinstance(text, Exception) else _try(lambda: from_n3(text, nsm=m))
+                        out.append((n, name, t, text, tbl, back))
+    finally:
+        rdflib.NORMALIZE_LITERALS = old
     return out
 
 
@@ -335,6 +403,10 @@ def gen_case(rng, tier, i):
     case = {"terms": terms, "p1": p1, "p2": p2, "nsm": rng.choice(["custom", "rebind", "only"]),
             "delims": [[rng.randrange(len(DELIMS)), rng.random() < 0.35] for _ in range(3 if thorough else 2)],
             "par": 7 if thorough else 2}
+    # histories of ONE namespace manager: bind / re-bind with replace / override / a second manager on the same store,
+    # a write-and-read round trip of the terms after every step (what was read before must not be remembered)
+    if rng.random() < (0.25 if thorough else 0.18):
+        case["hist"] = _gen_hist(rng)
     # process-level state (surface audit): the module flags and a datatype registered with term.bind()
     if rng.random() < (0.30 if thorough else 0.12):
         case["env"] = rng.choice(ENVS)
@@ -620,6 +692,8 @@ def _covered(a, b):
 import datetime as _dtm  # noqa: E402
 import decimal as _dec  # noqa: E402
 
+from rdflib.xsd_datetime import Duration as _Duration  # noqa: E402
+
 _EPOCH = _dtm.datetime(1, 1, 1)
 _US = _dtm.timedelta(microseconds=1)
 
@@ -654,6 +728,21 @@ def _vcode(v):
         return "t:%d/%s" % (wall, "-" if off is None else str(off // _US))
     if type(v) is _dtm.date:
         return "d:%d" % v.toordinal()
+    if type(v) is bytes:
+        return "y:" + _cps(v.decode("latin-1"))
+    if type(v) is _dtm.time:
+        off = v.utcoffset()
+        if off is not None and off % _dtm.timedelta(seconds=1):
+            return "o"      # CPython ignores the sub-second part of an offset when it compares times
+        wall = ((v.hour * 60 + v.minute) * 60 + v.second) * 1000000 + v.microsecond
+        return "T:%d/%s" % (wall, "-" if off is None else str(off // _US))
+    if type(v) is _dtm.timedelta:
+        return "D:0/%d/0" % (v // _US)
+    if type(v) is _Duration:
+        m = v.years * 12 + v.months
+        if m != int(m):
+            return "o"
+        return "D:%d/%d/1" % (int(m), v.tdelta // _US)
     return "o"
 
 
@@ -676,11 +765,14 @@ NUMERIC_SPEC = {XSD + n for n in ("integer", "decimal", "double", "float", "byte
 
 
 def _vclass(v):
-    """Python type class of a carried value: str | num | dtm | date; None for a NaN or a type that is not carried"""
+    """Python type class of a carried value: str | num | dtm | date | bytes | tim | tdelta; None for a NaN, a Duration
+    (no order) or a type that is not carried"""
     c = _vcode(v)
     if c in ("-", "o", "nan"):
         return None
-    return {"s": "str", "b": "num", "n": "num", "p": "num", "t": "dtm", "d": "date"}[c[0]]
+    if c[0] == "D" and c.endswith("/1"):
+        return None      # a Duration has no order: in no family
+    return {"s": "str", "b": "num", "n": "num", "p": "num", "t": "dtm", "d": "date", "y": "bytes", "T": "tim", "D": "tdelta"}[c[0]]
 
 
 def _family(t):
@@ -933,9 +1025,25 @@ def run_impl(case):
                     if o["gt"] != _b(wgt) or o["lt"] != _b(wlt):
                         V("class-order", f"{a!r} vs {b!r}: datatype IRI, then language tag, give >:{_b(wgt)} <:{_b(wlt)}; "
                                          f"got >:{o['gt']} <:{o['lt']}", i, j)
+                # `eq` is equality in value space: one datatype (not a string type), one tag, both values carried
+                if a.datatype is not None and a.datatype == b.datatype and str(a.datatype) != XSD + "string" and la == lb \
+                        and a.value is not None and b.value is not None and _vcode(a.value) != "o" and _vcode(b.value) != "o":
+                    stats["eq_value_pairs"] = stats.get("eq_value_pairs", 0) + 1
+                    if o["eq"] != _b(a.value == b.value):
+                        V("eq-value", f"{a!r}.eq({b!r}) is {o['eq']} but the values are {'' if a.value == b.value else 'not '}equal", i, j)
                 f = fams[i]
                 if f is None or isinstance(f, Exception) or fams[j] != f:
                     continue
+                # inside a family of valued literals `<` is Python's `<` on the values; a naive date-time / time comes before an
+                # aware one (the partition `_TOTAL_ORDER_CASTERS` is documented to make)
+                if f[0] != "lex":
+                    va, vb = a.value, b.value
+                    try:
+                        wlt = bool(va < vb)
+                    except TypeError:
+                        wlt = va.utcoffset() is None and vb.utcoffset() is not None
+                    if o["lt"] != _b(wlt):
+                        V("fam-value", f"{a!r} < {b!r} is {o['lt']} but the values order as {_b(wlt)} (family {f[0]})", i, j)
                 stats["fam_pairs_" + f[0]] = stats.get("fam_pairs_" + f[0], 0) + 1
                 back = _op(lambda: b < a)
                 incomparable = o["lt"] == "0" and back == "0"
@@ -1133,7 +1241,7 @@ def run_impl(case):
                 check("nsm", _try(lambda: from_n3(dtext)))
                 text = save_text
         raw = _raw_from_n3(text)
-        if k == "lit" and not isinstance(raw, Exception) and not _same(raw, t, exact_lang=False) and not _infnan(t):
+        if k == "lit" and not isinstance(raw, Exception) and not _same(raw, t, exact_lang=False) and not _respelt(t):
             # with normalisation switched off the reader must give back exactly the term
             V("n3-from_n3", f"{t!r}: n3() text {text!r} read by from_n3 with NORMALIZE_LITERALS=False gives {raw!r}", i)
         if k == "lit" or (k == "iri" and _absolute(s) and not any(ord(c) <= 0x20 for c in s)):
@@ -1143,6 +1251,18 @@ def run_impl(case):
                 check("sparql", _try(lambda: _sparql(text)))
         elif k == "bnode" and _label_ok(s):
             check("turtle", _try(lambda: _turtle(text)), relabel=True)
+
+    # ---------------- histories of a namespace manager: every round trip after every step gives the term back
+    if case.get("hist"):
+        for n, name, t, text, tbl, back in _hist_run(case, ts):
+            stats["hist_roundtrips"] = stats.get("hist_roundtrips", 0) + 1
+            stats["hist_prefixed"] = stats.get("hist_prefixed", 0) + int(not isinstance(text, Exception) and "<" not in text.split('"')[-1])
+            want = URIRef(str(t)) if isinstance(t, URIRef) else t
+            if isinstance(text, Exception) or isinstance(back, Exception):
+                ex = text if isinstance(text, Exception) else back
+                V("n3-nsm-hist", f"after step {n} of {case['hist']!r} ({name} manager): {t!r} written / read raised {type(ex).__name__}: {str(ex)[:60]}")
+            elif not _same(back, want, exact_lang=False):
+                V("n3-nsm-hist", f"after step {n} of {case['hist']!r} ({name} manager): {t!r} written {text!r} read back as {back!r}")
 
     # ---------------- observations compared with the Lean model
     for st in _steps(case, ts):
@@ -1165,6 +1285,15 @@ def _infnan(t):
     except ValueError:
         return False
     return v != v or v in (float("inf"), float("-inf"))
+
+
+def _respelt(t):
+    """the INF / NaN respelling of `_literal_n3` changes the text of this literal: it is a float infinity / NaN of xsd:float /
+    double / decimal spelled with `inf` / `Infinity` / `nan` (the canonical `INF`, `-INF`, `NaN` are left alone)"""
+    if not _infnan(t):
+        return False
+    s = str(t)
+    return "nan" in s if float(t) != float(t) else ("inf" in s or "Infinity" in s)
 
 
 def _text_in_scope(t):
@@ -1218,6 +1347,8 @@ def _steps(case, ts):
             st.append(("vcmp", i, j))
     st.append(("vsort", [i for i in case["p1"] if i in live and isinstance(ts[i], Literal)]))
     st.append(("msort", [i for i in case["p1"] if i in live]))     # the whole mixed list, literals with their values
+    if case.get("hist"):
+        st.append(("hist",))
     return st
 
 
@@ -1399,12 +1530,25 @@ def _impl_obs(st, case, ts):
         if not _vsort_modelled(l):
             return "vsort -"
         return "vsort " + " ; ".join(enc(x) for x in sorted(l))
+    if kind == "hist":
+        return "hist " + " | ".join("exc" if isinstance(b, Exception) else enc(b, True) for b in _hist_reads(case, ts)[1])
     if kind == "msort":
         l = [ts[i] for i in st[1]]
         if not _msort_modelled(l):
             return "msort -"
         return "msort " + " ; ".join(enc(x) for x in sorted(l))
     raise AssertionError(kind)
+
+
+def _hist_reads(case, ts):
+    """the round trips of a history the model reader is asked about: (driver lines, what rdflib read)"""
+    lines, reads = [], []
+    for n, name, t, text, tbl, back in _hist_run(case, ts):
+        if isinstance(text, Exception) or not _scalar(text) or not all(_scalar(p) and _scalar(ns) for p, ns in tbl):
+            continue
+        lines.append("rdq 0 " + _cps(text) + "".join(" %s %s" % (_cps(p), _cps(ns)) for p, ns in tbl))
+        reads.append(back)
+    return lines[:40], reads[:40]
 
 
 def _msort_modelled(l):
@@ -1482,6 +1626,8 @@ def model_lines(case):
             l = [ts[i] for i in st[1]]
             lines.append("msort " + " ".join("W " + _venc(x) if isinstance(x, Literal) else enc(x) for x in l)
                          if _msort_modelled(l) else "skip")
+        elif kind == "hist":     # the last step: one driver line per round trip of the history
+            lines += _hist_reads(case, ts)[0]
     return lines
 
 
@@ -1495,8 +1641,15 @@ def select_model_obs(case, out):
     the obligation is that rdflib reads the model's text as the term, not that the texts are equal."""
     ts = _build_all(case)
     res = []
-    for st, o in zip(_steps(case, ts), out):
+    steps = _steps(case, ts)
+    if steps and steps[-1][0] == "hist":
+        k = len(steps) - 1
+        out = list(out[:k]) + ["hist " + " | ".join(_fold_lang(x) for x in out[k:])]
+    for st, o in zip(steps, out):
         kind = st[0]
+        if kind == "hist":
+            res.append(o)
+            continue
         if kind == "cmp":
             res.append(o)
         elif kind == "n3":
@@ -1586,7 +1739,7 @@ def shrink(case):
 # ------------------------------------------------------------------ known findings: narrow matchers
 
 _U_ESC = re.compile(r"\\[uU][0-9A-Fa-f]{4}")
-_ORDER_TAGS = {"order-eq", "order-asym", "order-exc", "ops-consistent", "fam-order", "fam-trans", "class-order"}
+_ORDER_TAGS = {"order-eq", "order-asym", "order-exc", "ops-consistent", "fam-order", "fam-trans", "class-order", "fam-value", "eq-value"}
 _SORT_TAGS = {"sort-exc", "sort-repro"}
 
 
@@ -1604,7 +1757,15 @@ def _by_value(a, b):
             return False
     da = str(a.datatype) if a.datatype is not None else XSD + "string"
     db = str(b.datatype) if b.datatype is not None else XSD + "string"
-    return da == db and (a.language or "").lower() == (b.language or "").lower()
+    if not (da == db and (a.language or "").lower() == (b.language or "").lower()):
+        return False
+    if type(a.value) in T._TOTAL_ORDER_CASTERS and type(b.value) is type(a.value):
+        return True                                       # partitioned and ordered by the caster
+    try:                                                  # values without an order (a Duration against anything, F13's route)
+        a.value > b.value                                 # fall back to the lexical forms
+        return True
+    except TypeError:
+        return False
 
 
 def _lt_cycle(lits):
@@ -1639,7 +1800,7 @@ def _explain(case, result):
         elif tag == "n3-sparql" and inv and all(isinstance(t, Literal) and _U_ESC.search(str(t)) for t in inv):
             out.append("K2")
         elif (tag == "n3-sparql" or (tag in ("n3-from_n3", "n3-turtle", "n3-nsm") and case.get("env") == "nonorm")) \
-                and inv and all(isinstance(t, Literal) and _infnan(t) for t in inv) and "raised" not in v:
+                and inv and all(isinstance(t, Literal) and _respelt(t) for t in inv) and "raised" not in v:
             out.append("K5")   # readers that keep lexical forms: the SPARQL parser, or any reader with NORMALIZE_LITERALS off
         elif tag in _ORDER_TAGS and any(_is_nan_lit(t) for t in inv):
             out.append("K3")
@@ -1681,8 +1842,8 @@ _NAIVE = _dt.datetime(2001, 10, 26, 21, 32, 52)
 _AWARE = _dt.datetime(2001, 10, 26, 21, 32, 52, tzinfo=_dt.timezone(_dt.timedelta(hours=2)))
 
 
-def _caster_flag(v):
-    c = T._TOTAL_ORDER_CASTERS.get(_dt.datetime)
+def _caster_flag(v, typ=None):
+    c = T._TOTAL_ORDER_CASTERS.get(typ or _dt.datetime)
     if c is None:
         return False
     k = c(v)
@@ -1731,7 +1892,9 @@ def TABLES():
          "/-- `datetime.datetime in rdflib.term._TOTAL_ORDER_CASTERS` and what its caster does with a naive and an aware value:",
          "    the first component of the key it returns (probed) -/",
          "def castsDatetime : Bool := " + _lbool(_dt.datetime in T._TOTAL_ORDER_CASTERS),
-         "def casterAwareFlag : Bool × Bool := (" + ", ".join(_lbool(_caster_flag(x)) for x in (_NAIVE, _AWARE)) + ")", "",
+         "def casterAwareFlag : Bool × Bool := (" + ", ".join(_lbool(_caster_flag(x)) for x in (_NAIVE, _AWARE)) + ")",
+         "def castsTime : Bool := " + _lbool(_dt.time in T._TOTAL_ORDER_CASTERS),
+         "def casterAwareFlagTime : Bool × Bool := (" + ", ".join(_lbool(_caster_flag(x, _dt.time)) for x in (_NAIVE.time(), _AWARE.timetz())) + ")", "",
          "def xsdString : List Char := " + _lchars(str(T._XSD_STRING)),
          "def xsdNormalizedString : List Char := " + _lchars(str(T._XSD_NORMALISED_STRING)),
          "def xsdToken : List Char := " + _lchars(str(T._XSD_TOKEN)),
